@@ -256,8 +256,10 @@ def audit(form, xform, api_default_language=None):
                 if lab is not None and want is not None and (lab.text or "") != "".join({"‘": "'", "’": "'", "“": '"', "”": '"'}.get(c, c) for c in want):
                     probs.append(f"choice {lst}[{idx}]: inline label {lab.text!r}, the cell says {want!r}")
                 continue
-            if not cells and not any(k.lower().startswith(("media", "image", "audio", "video", "big-image")) for k in row):
-                continue          # finding F9 (C07): no text at all for this choice
+            # a choice with no text at all in a list that uses itext is shown the placeholder in every language (defect F9 of C07, repaired:
+            # the skip that stood here while it was a finding is gone); a choice with media only has no label text to show
+            if not cells and any(k.lower().startswith(("media", "image", "audio", "video", "big-image")) for k in row):
+                continue
             for l in langs:
                 v = c07_value(root, iid.text, l, None)
                 shown = text_of(v)
@@ -267,7 +269,7 @@ def audit(form, xform, api_default_language=None):
                 if want is None and l == "default" and None in cells and dl not in langs:
                     want = cells.get(None)
                 exp = norm_cell(want) if want is not None else "-"
-                if cells and shown != exp:
+                if shown != exp:
                     probs.append(f"choice {lst}[{idx}] ({row.get('name')}): language {l!r} is shown {shown!r}, the sheet says {exp!r} (cells {cells})")
     return probs
 
@@ -292,6 +294,17 @@ def _check(args):
             if rng.random() < 0.2:
                 for k in [k for k in r if k.startswith("label")]:
                     del r[k]
+    if i % 5 == 4 and len(form.get("choices") or []) >= 2:
+        # a list that needs itext (one choice has an image) in which another choice has neither label nor media: the placeholder is shown, in a
+        # form of one language as in a form of several
+        rl = rng_for(seed, PID, "bare-choice", i)
+        ln = rl.choice(sorted({c.get("list_name") for c in form["choices"] if c.get("list_name")}))
+        rows_ = [c for c in form["choices"] if c.get("list_name") == ln]
+        if len(rows_) >= 2:
+            a_, b_ = rl.sample(rows_, 2)
+            a_[rl.choice(["image", "media::image"])] = "pic.png"
+            for k in [k for k in b_ if k.split("::")[0].strip().lower() in ("label", "image", "audio", "video", "media", "big-image")]:
+                del b_[k]
     if i % 3 == 0:
         forms.add_exotics(rng_for(seed, PID, "exotic", i), form, ["search", "search", "legacy_hint", "group_media", "group_media"], p=0.6)
     api_dl = None
